@@ -1419,7 +1419,12 @@ static POW_VEC: &[f32] = &[
 fn write_num(num: f32, buf: &mut Vec<u8>, precision: u8) {
     // If number is an integer, it's faster to write it as i32.
     if num.fract().approx_zero_ulps(4) {
-        write!(buf, "{}", num as i32).unwrap();
+        // `as i32` saturates: 3e9 would be written as 2147483647.
+        if num.abs() < 2147483648.0 {
+            write!(buf, "{}", num as i32).unwrap();
+        } else {
+            write!(buf, "{}", num).unwrap();
+        }
         return;
     }
 
